@@ -132,6 +132,12 @@ def enumerate_cases(tier, seed):
         for keep in ("all", "half", "two_lines"):
             cases.append({"program": "gen_params", "input": inp, "fault": None, "prior": "present", "rng": seed,
                           "previous_result": keep})
+    # the force field attaches a message of some level to the link that is applied: the run succeeds and writes
+    for inp in (0, 1):
+        for prior in PRIOR:
+            for level in ("info", "warning", "error"):
+                cases.append({"program": "gen_params", "input": inp, "fault": None, "prior": prior, "rng": seed,
+                              "log": level})
     # every case whose listing index is a multiple of 3, and every fault-free case a second time, runs with the
     # directory for temporary files on another file system than the output
     extra = []
@@ -144,7 +150,7 @@ def enumerate_cases(tier, seed):
 
 
 # ----------------------------------------------------------------------------
-def gen_params_input(which, natural=False):
+def gen_params_input(which, natural=False, log=None):
     def atom(n, t, rn):
         return {"name": n, "type": t, "charge": 0.0, "mass": 45.0, "cgrp": 1, "resid": 1, "resname": rn}
     blocks = [{"name": "RA", "nrexcl": 1, "syntax": "ff" if which == 0 else "itp",
@@ -152,7 +158,8 @@ def gen_params_input(which, natural=False):
                "inter": [{"sec": "bonds", "atoms": [0, 1], "params": ["1", "0.37", "7000.0"], "meta": {}}]}]
     links = [{"resname": "RA", "atoms": [{"key": "SC1", "attrs": {}}, {"key": "+BB", "attrs": {}}],
               "inter": [{"sec": "bonds", "atoms": ["SC1", "+BB"], "params": ["1", "0.4", "5000.0"], "meta": {}}],
-              "edges": [], "non_edges": [], "patterns": []}]
+              "edges": [], "non_edges": [], "patterns": [],
+              "log": [log, "parameters of this link are a rough guess"] if log else None}]
     files = [{"kind": "ff", "blocks": [0] if which == 0 else [], "links": [0], "mods": []}]
     if which == 1:
         files.append({"kind": "itp", "blocks": [0], "links": [], "mods": []})
@@ -381,7 +388,7 @@ def _check(spec, ctx, other_tmp):
     try:
         if program == "gen_params":
             from polyply.src.gen_itp import gen_params
-            gspec = gen_params_input(spec["input"], natural)
+            gspec = gen_params_input(spec["input"], natural, log=spec.get("log"))
             ictx = type("C", (), {"dir": indir})()
             kwargs = gp.write_inputs(gspec, indir)
             if spec["input"] == 1:
@@ -504,6 +511,8 @@ def _check(spec, ctx, other_tmp):
     else:
         verify_success(program, target, before, after, prior, sentinel, suffix, outdir)
     ctx.label(f"success_{program}_{prior}")
+    if spec.get("log"):
+        ctx.label("force_field_message_" + spec["log"])
     ctx.nontrivial = prior != "absent"
 
 
